@@ -262,7 +262,7 @@ func C14(c *core.Ctx) {
 	// ---- real derivations, recorded
 	nseq, maxLen := 60, 3
 	if !c.Quick() {
-		nseq, maxLen = 150, 4
+		nseq, maxLen = 1500, 4
 	}
 	var events []c14Event
 	for s := 0; s < nseq; s++ {
